@@ -288,14 +288,18 @@ SGal3TangentBase<_Derived>::ljac() const {
   // Block L
   Scalar cA, cB;
   // small angle approx.
-  if (theta_cu > Constants<Scalar>::eps) {
+  // The closed forms below subtract O(1) terms to get O(theta^4..theta^6)
+  // results: their round-off grows like eps/theta^5, so the second-order
+  // series are used well before they degrade.
+  const bool small_angle = !(theta_cu * theta_cu > Constants<Scalar>::eps);
+  if (!small_angle) {
     cA = (sin_t - theta * cos_t) / theta_cu;
     cB = (
       theta_sq + Scalar(2) * (Scalar(1) - theta * sin_t - cos_t)
     ) / (Scalar(2) * theta_sq * theta_sq);
   } else {
     cA = Scalar(1./3.)  - Scalar(1./30.) * theta_sq;
-    cB = Scalar(1./8.);
+    cB = Scalar(1./8.) - Scalar(1./144.) * theta_sq;
   }
 
   // Block - L * t
@@ -317,7 +321,7 @@ SGal3TangentBase<_Derived>::ljac() const {
 
   // Block N2, part of N
   Scalar cC, cD, cE, cF;
-  if (theta_cu > Constants<Scalar>::eps) {
+  if (!small_angle) {
     cA = (Scalar(2) - theta * sin_t - Scalar(2) * cos_t) / theta_cu / theta;
     cB = (
       theta_cu + Scalar(6) * theta + Scalar(6) * theta * cos_t - Scalar(12) * sin_t
@@ -331,12 +335,12 @@ SGal3TangentBase<_Derived>::ljac() const {
     cE = (theta_sq + Scalar(2) * (cos_t - Scalar(1))) / (Scalar(2) * theta_cu * theta);
     cF = (theta_cu + Scalar(6) * (sin_t - theta)) / (Scalar(6) * theta_cu * theta_sq);
   } else {
-    cA = Scalar(1. / 12.);
-    cB = Scalar(1. / 24.);
-    cC = Scalar(1. / 10.);
-    cD = Scalar(1. / 240.);
-    cE = Scalar(1. / 24.);
-    cF = Scalar(1. / 120.);
+    cA = Scalar(1. / 12.)  - Scalar(1. / 180.)  * theta_sq;
+    cB = Scalar(1. / 40.)  - Scalar(1. / 1008.) * theta_sq;
+    cC = Scalar(1. / 60.)  - Scalar(1. / 560.)  * theta_sq;
+    cD = Scalar(1. / 144.) - Scalar(1. / 2880.) * theta_sq;
+    cE = Scalar(1. / 24.)  - Scalar(1. / 720.)  * theta_sq;
+    cF = Scalar(1. / 120.) - Scalar(1. / 5040.) * theta_sq;
   }
 
   // Block N = N1 - N2
